@@ -346,7 +346,12 @@ def mechanism_call(spec):
     if mech == 'aim':
         mod = mechload.load('aim')
         wl = [(tuple(c), 1.0) for c in spec['workload']]
-        return (lambda d: mod.AIM(eps, delta, rounds=spec.get('rounds')).run(d, wl)), False, 'rho'
+        kw = {}
+        if 'max_model_size' in spec:
+            kw['max_model_size'] = spec['max_model_size']
+        if spec.get('prng') == 'np.random':
+            kw['prng'] = np.random
+        return (lambda d: mod.AIM(eps, delta, rounds=spec.get('rounds'), **kw).run(d, wl)), False, 'rho'
     if mech == 'mwem':
         mod = mechload.load('mwem')
         bounded = spec['bounded']
